@@ -82,7 +82,12 @@ cache_get_page(struct page_io *pio, read_page_fn *fn)
 void
 cache_put_page(struct page_io *pio)
 {
+	kdump_ctx_t *ctx = pio->ctx;
+
+	/* Reference counters of cache entries are shared by all clones. */
+	mutex_lock(&ctx->shared->cache_lock);
 	fcache_put_chunk(&pio->chunk);
+	mutex_unlock(&ctx->shared->cache_lock);
 }
 
 static addrxlat_status
